@@ -10,6 +10,7 @@ CONSTANTS
 INVARIANT Inv_Committed
 INVARIANT Inv_DropEquivalent
 INVARIANT Inv_Index
+INVARIANT Inv_ReaderSeesWritten
 INVARIANT Inv_HeaderBox
 INVARIANT Inv_FailedFinalizeRetryable
 PROPERTY Act_FaultSurfaced
